@@ -47,6 +47,12 @@ def callees(facts, name):
     return fn, out
 
 
+def reaches(facts, name, target):
+    """Does `name` call `target` directly or through helpers that are not in the frozen list?"""
+    from .util import reaches_via_new
+    return reaches_via_new(facts, facts.fn(name), target)
+
+
 def atoms(ctx):
     facts = ctx.facts
     fo, co = callees(facts, ONE)
@@ -54,11 +60,11 @@ def atoms(ctx):
     fh, ch = callees(facts, conn.PARSE_H)
     fb, cb = callees(facts, "common::headers::Headers::try_from")
     ctx.touched(fo, frl, fh, fb)
-    ctx.ob("R14.1", "one-shot|request-line", "request::RequestLine::try_from" in co, "one-shot parser calls RequestLine::try_from", fo.loc(0))
-    ctx.ob("R14.1", "incremental|request-line", "request::RequestLine::try_from" in crl, "incremental parser calls RequestLine::try_from", frl.loc(0))
-    ctx.ob("R14.1", "one-shot|header-block", "common::headers::Headers::try_from" in co, "one-shot parser calls Headers::try_from", fo.loc(0))
-    ctx.ob("R14.1", "block|header-line", conn.PHL in cb, "Headers::try_from calls parse_header_line", fb.loc(0))
-    ctx.ob("R14.1", "incremental|header-line", conn.PHL in ch, "incremental parser calls parse_header_line", fh.loc(0))
+    ctx.ob("R14.1", "one-shot|request-line", reaches(facts, ONE, "request::RequestLine::try_from"), "one-shot parser calls RequestLine::try_from", fo.loc(0))
+    ctx.ob("R14.1", "incremental|request-line", reaches(facts, conn.PARSE_RL, "request::RequestLine::try_from"), "incremental parser calls RequestLine::try_from", frl.loc(0))
+    ctx.ob("R14.1", "one-shot|header-block", reaches(facts, ONE, "common::headers::Headers::try_from"), "one-shot parser calls Headers::try_from", fo.loc(0))
+    ctx.ob("R14.1", "block|header-line", reaches(facts, "common::headers::Headers::try_from", conn.PHL), "Headers::try_from calls parse_header_line", fb.loc(0))
+    ctx.ob("R14.1", "incremental|header-line", reaches(facts, conn.PARSE_H, conn.PHL), "incremental parser calls parse_header_line", fh.loc(0))
     # needles of find()
     from ..paths import PathEnum
     def needles(name):
